@@ -125,7 +125,7 @@ theorem syncFinish_frame (v : Variant) (s : State) (g : Nat) (st : Group) (mid :
   · exact setGroup_frame _ _ _
   · exact (setGroup_frame _ _ _).trans (persist_frame _ _ _ _)
 
-theorem sync_frame (v : Variant) (s : State) (g mid gen : Nat) : Frame s (sync v s g mid gen).1 := by
+theorem sync_frame (v : Variant) (s : State) (g mid : Nat) (gen : Int) : Frame s (sync v s g mid gen).1 := by
   unfold sync
   split
   · exact clearFetchGroup_frame s
@@ -144,7 +144,7 @@ theorem sync_frame (v : Variant) (s : State) (g mid gen : Nat) : Frame s (sync v
             · exact h1.trans ((leaderAssign_frame _ _).trans (syncFinish_frame _ _ _ _ _))
           · exact h1.trans (syncFinish_frame _ _ _ _ _)
 
-theorem heartbeat_frame (v : Variant) (s : State) (g mid gen : Nat) : Frame s (heartbeat v s g mid gen).1 := by
+theorem heartbeat_frame (v : Variant) (s : State) (g mid : Nat) (gen : Int) : Frame s (heartbeat v s g mid gen).1 := by
   unfold heartbeat
   split
   · exact clearFetchGroup_frame s
